@@ -14,6 +14,8 @@ CONSTANTS Classes,     \* names of the registered feature-map classes
           RegCodes,    \* DOMAIN of the registry (strings; "None" for a class without code)
           Reg,         \* [RegCodes -> Classes]
           Writes,      \* [Classes -> STRING]
+          SplineShapes,\* index layouts of a spline-set evaluator (which features each term reads, IN WHICH ORDER): the order
+                       \* pairs feature columns with spline axes, so it is part of the object's identity
           MaxCycles
 
 VARIABLES obj,   \* the live object: [kind, cls, ver] | Error | None   (ver: which parameter set it carries)
@@ -75,7 +77,8 @@ LoadModel(fmt) ==
               ELSE [kind |-> "model", cls |-> file.cls, ver |-> file.ver]
   /\ ncyc' = ncyc + 1 /\ hist' = Append(hist, <<"loadmodel", fmt>>) /\ UNCHANGED file
 
-Next == \/ \E k \in {"list", "spline", "model"}, c \in Classes : Make(k, c)
+Next == \/ \E k \in {"list", "model"}, c \in Classes : Make(k, c)
+        \/ \E sh \in SplineShapes : Make("spline", sh)
         \/ \E f \in ListFmts : DumpCoded(f)
         \/ LoadCoded \/ Corrupt \/ Renew
         \/ \E f \in ModelFmts, s \in Suffixes : DumpModel(f, s)
